@@ -295,7 +295,7 @@ def run_shard(spec, seed, tier):
         res.extra["ffx_exhaustive_bounds"] = "per sampled key: all x in {0,1}^n for every n in 2..12"
         res.exhaustive = True
     elif spec["kind"] == "lr_exh":
-        key = (hashlib.sha256(("c15lr/%d/%d" % (base, spec["k"])).encode()).digest() * 2)[:[48, 3, 24, 96][spec["k"] % 4]]
+        key = (hashlib.sha256(("c15lr/%d/%d" % (base, spec["k"])).encode()).digest() * 4)[:[48, 3, 24, 96][spec["k"] % 4]]
         simple.run_enumeration(res, mod, [{"kind": "lr_exhaustive2", "key": key.hex(),
                                            "digest": ["sha1", "sha256", "md5", "sha1"][spec["k"] % 4]}], nontrivial=True)
         res.extra["lr_exhaustive_points"] = 65536
